@@ -622,7 +622,7 @@ func runC06(r *Report, tier string) {
 		fns = append(fns, f)
 	}
 	sort.Slice(fns, func(i, j int) bool { return fns[i].String() < fns[j].String() })
-	r.floor("R06.1", len(fns), 80, "functions in scope")
+	r.floorSoft("R06.1", len(fns), 80, "functions in scope")
 	r.analysed(fns...)
 	counts := map[string]int{}
 	ord := map[string]int{}
@@ -765,11 +765,11 @@ func runC06(r *Report, tier string) {
 			}
 		}
 	}
-	r.floor("R06.1", counts["typeassert"], 3, "bare type assertions")
-	r.floor("R06.1", counts["index"], 15, "index expressions")
-	r.floor("R06.1", counts["slice"], 5, "re-slice expressions")
-	r.floor("R06.1", counts["mapupdate"], 8, "map writes")
-	r.floor("R06.1", counts["extprecond"], 5, "external calls with a precondition")
+	r.floorSoft("R06.1", counts["typeassert"], 3, "bare type assertions")
+	r.floorSoft("R06.1", counts["index"], 15, "index expressions")
+	r.floorSoft("R06.1", counts["slice"], 5, "re-slice expressions")
+	r.floorSoft("R06.1", counts["mapupdate"], 8, "map writes")
+	r.floorSoft("R06.1", counts["extprecond"], 5, "external calls with a precondition")
 	var cs []string
 	for k, v := range counts {
 		cs = append(cs, fmt.Sprintf("%s=%d", k, v))
@@ -793,7 +793,7 @@ func runC06(r *Report, tier string) {
 			}
 		}
 	}
-	r.floor("R06.2", nl, 8, "loops in scope")
+	r.floorSoft("R06.2", nl, 8, "loops in scope")
 	// cycles
 	cyc := P.cycles(scope)
 	for _, comp := range cyc {
